@@ -67,6 +67,26 @@ structure CaseOut where
   cls   : String := "none"            -- known-finding class of the input
   tags  : List String := []           -- model branches taken (input distribution)
 
+/-- ops split at the `reset` ops -/
+def splitAtReset : List (List String × List (List String)) → List (List (List String × List (List String)))
+  | [] => [[]]
+  | op :: rest =>
+    match splitAtReset rest with
+    | [] => [[op]]
+    | seg :: segs => if op.1 == ["reset"] then [] :: seg :: segs else (op :: seg) :: segs
+
+/-- `reset` (Window.Reset): the window is as new afterwards.  Each stretch between resets is a case of its own for the
+model and for the oracle; the observables are concatenated (the reset op itself has none). -/
+def withResets (run : Case → CaseOut) (c : Case) : CaseOut :=
+  if !(c.ops.any fun op => op.1 == ["reset"]) then run c else
+  let outs := (splitAtReset c.ops).map fun seg => run { c with ops := seg }
+  let obs := match outs with
+    | [] => []
+    | o :: os => o.obs ++ os.flatMap fun o' => [] :: o'.obs
+  let spec := ((outs.map (·.spec)).find? (· != "ok")).getD "ok"
+  let cls := ((outs.map (·.cls)).find? (· != "none")).getD "none"
+  { obs := obs, spec := spec, cls := cls, tags := ("window-reset" :: outs.flatMap (·.tags)).eraseDups }
+
 def renderCase (c : Case) (o : CaseOut) : List String :=
   let hdr := s!"case {c.prop} {c.seed} {c.idx}"
   let body := (c.ops.zip o.obs).flatMap fun ((op, _), obs) =>
